@@ -23,6 +23,7 @@
 #include <malloc.h>
 #include <kits/histbfs.h>
 #include <kits/chainkit.h>
+#include <kits/p2pkit.h>
 
 #include <addresstype.h>
 #include <chainparams.h>
@@ -81,7 +82,13 @@ std::string describe(const std::string& hist)
     for (unsigned char c : hist) s += std::to_string((int)c) + " " + OPS[c].label + "\n";
     return s;
 }
-void fail(const std::string& key, const std::string& what, const std::string& hist) { vx::violation(key, what, describe(hist)); }
+// Failures of the probe are collected per replay; replay() attributes them to the malleated copies by comparing with
+// the same history without those copies (the property speaks about what a copy *causes*).
+std::vector<std::pair<std::string, std::string>> g_fails;
+void fail(const std::string& key, const std::string& what, const std::string&) { g_fails.emplace_back(key, what); }
+bool IsCopyOp(const Op& o) { return (o.t == DEL && o.x >= 1 && o.x <= 3) || (o.t == ANN && o.x == 2); }
+uint64_t g_baseline_fail;
+std::string g_baseline_sample;
 
 // ---------------------------------------------------------------------------------- the wiring (transcribed from net_processing.cpp)
 struct Wiring {
@@ -286,15 +293,11 @@ std::string Probe(Wiring& w, const std::string& hist)
     return sig;
 }
 
-double t_clear, t_ctor, t_ops, t_obs, t_probe; uint64_t n_replay;
-static inline double cpu() { return (double)clock() / CLOCKS_PER_SEC; }
-bool replay(const std::string& hist, std::string& key)
+bool replay_raw(const std::string& hist, std::string& key)
 {
-    double c0 = cpu();
+    g_fails.clear();
     ClearPool();
-    double c1 = cpu();
     Wiring w;
-    n_replay++; t_clear += c1 - c0;
     w.Connect(PA, /*preferred=*/false, false, /*wtxid=*/true);
     w.Connect(PH, /*preferred=*/true, false, /*wtxid=*/true);
     w.Connect(PT, /*preferred=*/false, false, /*wtxid=*/false);
@@ -327,22 +330,44 @@ bool replay(const std::string& hist, std::string& key)
         case REORG: w.dm.BlockDisconnected(); w.Block(++nblocks); break;
         }
     }
-    double c2 = cpu();
     w.dm.m_txrequest.SanityCheck();
     w.dm.m_orphanage->SanityCheck();
-    t_ops += c2 - c1;
     if (InPool(G)) {
         g_probe_skipped_inpool++;
         key = "G-in-pool"; // the property has nothing more to say
         return true;
     }
     key = Observe(w);
-    double c3 = cpu(); t_obs += c3 - c2;
     for (auto& u : UNIVERSE) if (w.dm.m_lazy_recent_rejects && w.dm.m_lazy_recent_rejects->contains(u.h)) { g_reject_filter++; break; }
     key += " probe:" + Probe(w, hist);
-    t_probe += cpu() - c3;
-    if (getenv("C64_PROF") && n_replay % 2000 == 0) fprintf(stderr, "replays %lu clear %.2f ops %.2f obs %.2f probe %.2f\n", n_replay, t_clear, t_ops, t_obs, t_probe);
     return true;
+}
+
+bool replay(const std::string& hist, std::string& key)
+{
+    const bool enabled = replay_raw(hist, key);
+    if (g_fails.empty()) return enabled;
+    auto fails = g_fails;
+    // the same history without the malleated copies
+    std::string base;
+    for (unsigned char c : hist) if (!IsCopyOp(OPS[c])) base.push_back((char)c);
+    std::set<std::string> base_keys;
+    if (base != hist) {
+        std::string k2;
+        replay_raw(base, k2);
+        for (auto& f : g_fails) base_keys.insert(f.first);
+    }
+    for (auto& f : fails) {
+        if (base == hist || base_keys.count(f.first)) {
+            // G is not obtainable here even though no malleated copy was ever seen: not what this property is about
+            g_baseline_fail++;
+            if (g_baseline_sample.empty()) { g_baseline_sample = f.first + ": " + f.second + " | history without any malleated copy:"; for (unsigned char c : base) g_baseline_sample += " " + OPS[c].label + ";"; }
+            continue;
+        }
+        vx::violation(f.first, f.second + " (the same history without the malleated copies passes)", describe(hist));
+    }
+    // leave the global node as replay_raw(hist) left it is not required: every replay starts with ClearPool()
+    return enabled;
 }
 
 void BuildUniverse(int mode)
@@ -423,6 +448,103 @@ void BuildUniverse(int mode)
     }
 }
 
+
+// ---------------------------------------------------------------------------------- end-to-end: the same scenarios through ProcessMessage
+// A fresh PeerManager (kits/p2pkit) per history on the shared node; peers A (inbound), H (outbound-full-relay), T (inbound,
+// txid relay), F (inbound, silent until the probe). After every event every peer gets one ProcessMessages + SendMessages
+// round, as the message-handler thread does; getdata messages are read off the peers' sockets.
+struct EOp { int kind; int peer; int x; std::string label; }; // kind 0: tx, 1: inv, 2: clock
+std::vector<EOp> EOPS;
+uint64_t g_e2e_hist, g_e2e_events, g_e2e_accept, g_e2e_getdata_fast, g_e2e_getdata_late, g_e2e_baseline_fail;
+
+std::string e2e_describe(const std::string& h)
+{
+    std::string s = "# end-to-end, mode " + std::to_string(MODE) + "\n";
+    for (unsigned char c : h) s += "e" + std::to_string((int)c) + " " + EOPS[c].label + "\n";
+    return s;
+}
+
+std::vector<std::string> RunE2E(const std::string& hist)
+{
+    std::vector<std::string> fails;
+    ClearPool();
+    int64_t now = T0;
+    SetMockTime(now);
+    pk::Net net(*N, {});
+    auto spec = [](ConnectionType t, const char* ip, bool wtxid) { pk::PeerSpec s; s.type = t; s.ip = ip; s.wtxid_relay = wtxid; return s; };
+    pk::Peer* peers[4] = {&net.AddPeer(spec(ConnectionType::INBOUND, "11.1.1.1", true)), &net.AddPeer(spec(ConnectionType::OUTBOUND_FULL_RELAY, "12.2.2.2", true)),
+                          &net.AddPeer(spec(ConnectionType::INBOUND, "13.3.3.3", false)), &net.AddPeer(spec(ConnectionType::INBOUND, "14.4.4.4", true))};
+    for (auto* p : peers) (void)p->TakeSent();
+    auto round = [&] { for (int k = 0; k < 2; k++) for (auto* p : peers) net.Round(*p); };
+    auto tx_of = [&](int x) { return x == 0 ? G : x == 1 ? Gb : x == 2 ? Gs : x == 3 ? Gx : P; };
+    for (unsigned char c : hist) {
+        const EOp& o = EOPS[c];
+        g_e2e_events++;
+        if (o.kind == 0) { if (InPool(G)) continue; net.Deliver(*peers[o.peer], pk::MsgTx(*tx_of(o.x), /*with_witness=*/o.x != 2)); }
+        else if (o.kind == 1) net.Deliver(*peers[o.peer], pk::MsgInv({o.x == 0 ? CInv(MSG_WTX, G->GetWitnessHash().ToUint256()) : CInv(MSG_TX, G->GetHash().ToUint256())}));
+        else { now += o.x; SetMockTime(now); }
+        round();
+    }
+    for (auto* p : peers) if (p->disconnect_flag()) fails.push_back("C64-e2e-disconnected");
+    if (InPool(G)) return fails;
+    // probe
+    pk::Peer& F = *peers[3];
+    (void)F.TakeSent();
+    net.Deliver(F, pk::MsgInv({CInv(MSG_WTX, G->GetWitnessHash().ToUint256())}));
+    bool asked = false;
+    int t = 0, asked_at = -1;
+    for (int st : {0, 2, 2, 2, 2, 60, 2, 60, 2, 60, 2}) {
+        now += st; t += st;
+        SetMockTime(now);
+        round();
+        for (auto& m : F.TakeSent())
+            if (m.type == "getdata") for (auto& inv : pk::ParseInvVector(m)) if (inv.IsMsgWtx() && inv.hash == G->GetWitnessHash().ToUint256() && !asked) { asked = true; asked_at = t; }
+    }
+    const bool g_orph = [&] { for (auto& o : net.peerman->GetOrphanTransactions()) if (o.tx->GetWitnessHash() == G->GetWitnessHash()) return true; return false; }();
+    if (!asked && !g_orph) fails.push_back("C64-e2e-not-requested");
+    if (asked) { if (asked_at <= 8) g_e2e_getdata_fast++; else g_e2e_getdata_late++; }
+    net.Deliver(F, pk::MsgTx(*G));
+    round();
+    if (MODE == 2 && !InPool(G)) {
+        if (!InPool(P)) { net.Deliver(F, pk::MsgTx(*P)); round(); }
+        for (int k = 0; k < 4; k++) round();
+    }
+    if (!InPool(G)) fails.push_back("C64-e2e-not-accepted"); else g_e2e_accept++;
+    return fails;
+}
+
+void ExploreE2E(int depth)
+{
+    EOPS.clear();
+    auto add = [&](int k, int p, int x, const std::string& l) { EOPS.push_back(EOp{k, p, x, l}); };
+    add(0, 0, 1, "A: tx Gb"); add(0, 0, 2, "A: tx Gs"); add(0, 0, 3, "A: tx Gx"); add(0, 2, 2, "T: tx Gs");
+    add(1, 1, 0, "H: inv wtxid(G)"); add(1, 0, 0, "A: inv wtxid(G)"); add(1, 2, 1, "T: inv txid(G)");
+    add(2, -1, 2, "clock +2s"); add(2, -1, 60, "clock +60s");
+    if (MODE == 2) { add(0, 1, 4, "H: tx P"); add(0, 1, 0, "H: tx G"); }
+    const int n = (int)EOPS.size();
+    std::vector<std::string> level{""};
+    for (int d = 0; d <= depth; d++) {
+        std::vector<std::string> next;
+        for (auto& h : level) {
+            if (vx::deadline_reached()) { vx::ev().exhaustive = false; return; }
+            g_e2e_hist++;
+            auto fails = RunE2E(h);
+            if (!fails.empty()) {
+                std::string base;
+                for (unsigned char c : h) if (!(EOPS[c].kind == 0 && EOPS[c].x >= 1 && EOPS[c].x <= 3)) base.push_back((char)c);
+                std::set<std::string> bf;
+                if (base != h) for (auto& f : RunE2E(base)) bf.insert(f);
+                for (auto& f : fails) {
+                    if (base == h || bf.count(f)) { g_e2e_baseline_fail++; continue; }
+                    vx::violation(f, "end-to-end through ProcessMessage: genuine G not requested / not accepted after this history (passes without the malleated copies)", e2e_describe(h));
+                }
+            }
+            if (d < depth) for (int o = 0; o < n; o++) next.push_back(h + (char)o);
+        }
+        level = std::move(next);
+    }
+}
+
 // what the mempool says about each copy (sanity of the universe)
 bool CheckUniverse()
 {
@@ -463,6 +585,7 @@ int run()
     SeedRandomStateForTest(SeedRand::ZEROS);
     hb::describer() = describe;
     const int depth1 = vx::thorough() ? 7 : 6, depth2 = vx::thorough() ? 6 : 5;
+    const int de = getenv("C64_DE") ? atoi(getenv("C64_DE")) : (vx::thorough() ? 4 : 3);
     const int d1 = getenv("C64_D1") ? atoi(getenv("C64_D1")) : depth1, d2 = getenv("C64_D2") ? atoi(getenv("C64_D2")) : depth2;
 
     if (!vx::ctx().replay.empty()) {
@@ -509,7 +632,11 @@ int run()
         levels += "mode" + std::to_string(mode) + ": ";
         for (auto v : bfs.level_states) levels += std::to_string(v) + " ";
         if (!bfs.complete) { complete = false; break; }
+        ExploreE2E(de);
+        if (!E.exhaustive) { complete = false; break; }
     }
+    states += g_e2e_hist;
+    transitions += g_e2e_events;
     E.states = states;
     E.transitions = transitions;
     E.traces_validated = transitions;
@@ -519,22 +646,35 @@ int run()
     E.set("mode1_depth_target", (uint64_t)d1);
     E.set("mode2_depth_target", (uint64_t)d2);
     E.set_str("new_states_per_depth", levels);
+    E.set("e2e_depth", (uint64_t)de);
+    E.set("e2e_histories", g_e2e_hist);
+    E.set("e2e_messages_processed", g_e2e_events);
+    E.set("n: e2e probe: G accepted", g_e2e_accept);
+    E.set("n: e2e probe: getdata(wtxid G) to F within 8 s", g_e2e_getdata_fast);
+    E.set("n: e2e probe: getdata(wtxid G) to F after a stall", g_e2e_getdata_late);
+    E.set("n: e2e probe failures also present without malleated copies", g_e2e_baseline_fail);
     struct Gt { const char* n; uint64_t v; bool req; } gates[] = {
         {"copy rejected as witness-stripped", g_stripped, true}, {"copy rejected as witness-mutated (non-standard witness)", g_mutated_witness, true},
         {"state with an entry in the reject filter", g_reject_filter, true},
         {"copy kept as orphan", g_orphan_kept, true}, {"orphan reconsidered and rejected", g_orphan_rejected, true}, {"reject filters reset by a block", g_filter_reset, true},
         {"probe: G accepted", g_probe_accept, true}, {"probe: G accepted through the orphan path", g_probe_orphan_path, true}, {"probe: F asked within 8 s", g_req_immediate, true},
         {"probe: F asked only after another announcer's request expired", g_req_after_stall, true}, {"probe: G itself was in the orphanage", g_g_in_orphanage, true},
-        {"replays ending with G in the mempool", g_probe_skipped_inpool, false}, {"1p1c package evaluations", g_pkg, false}};
+        {"replays ending with G in the mempool", g_probe_skipped_inpool, false}, {"1p1c package evaluations", g_pkg, false},
+        {"probe failures that also occur without any malleated copy (not attributed to the copies)", g_baseline_fail, false}};
     for (auto& g : gates) E.set(std::string("n: ") + g.n, g.v);
     E.rule = "BFS over all event histories (deliver malleated copy / announce / clock +2s,+60s / getdata scheduling / notfound / disconnect / orphan work / block / reorg) on a fresh "
              "TxDownloadManagerImpl + the node's real mempool; states merged on (mempool, orphanage with announcers, filter membership of every universe hash, per-peer "
              "announcement counters, candidate peers per hash, behavioural signature = getdata schedule observed by the probe over the next 194 s); in every state without G in the "
              "mempool the probe (fresh wtxid peer announces G, is asked for it, delivers it, G accepted) is executed on the replayed state";
-    E.assume("the handlers are transcriptions of PeerManagerImpl's INV/TX/NOTFOUND/ProcessOrphanTx/SendMessages(getdata)/FinalizeNode/BlockConnected code; the end-to-end path through ProcessMessage is not part of this check");
+    E.assume("the handlers of the main search are transcriptions of PeerManagerImpl's INV/TX/NOTFOUND/ProcessOrphanTx/SendMessages(getdata)/FinalizeNode/BlockConnected code; in addition all "
+             "sequences of <= e2e_depth events {A: tx Gb/Gs/Gx, T: tx Gs, inv of G by H/A/T, clock +2s/+60s (+ H: tx P, H: tx G in mode 2)} are run end-to-end through the real "
+             "PeerManager::ProcessMessages/SendMessages (one fresh PeerManager per history, histories not merged; counted in states/transitions) with the same probe read off the sockets");
     E.assume("block and reorg events reach the download manager as callbacks with unrelated blocks; the chain and therefore the validity of G do not change");
     E.assume("states whose hidden request-tracker timing differs but yields the same getdata schedule under the probe are merged (observational equivalence)");
+    if (!g_baseline_sample.empty()) E.sample("NOT a violation of this property (no malleated copy involved): " + g_baseline_sample);
+    E.assume("a probe failure counts only if the same history with the malleated deliveries/announcements removed passes the probe (the property is about what a copy causes)");
     E.assume("mode 1: G spends a confirmed coin; mode 2: G spends the unconfirmed, initially unknown parent P (orphan forms of all copies)");
+    if (complete && vx::rep().violations == 0 && (g_e2e_accept == 0 || g_e2e_getdata_fast == 0)) { printf("HARNESS-ERROR property=C64 vacuous end-to-end stage\n"); vx::write_evidence(); return 2; }
     if (complete && vx::rep().violations == 0)
         for (auto& g : gates) if (g.req && g.v == 0) { printf("HARNESS-ERROR property=C64 vacuous: never observed '%s'\n", g.n); vx::write_evidence(); return 2; }
     return vx::finish();
